@@ -3,6 +3,8 @@ import TorrentVerif.Model.HasherV1
 import TorrentVerif.Model.Merkle
 import Driver.G5
 import Driver.G3
+import Driver.G6
+import Driver.G4
 /-
   Correspondence driver.  One request per input line, one answer per output line.
   For every request it evaluates the implementation model `Impl.*` and the specification
@@ -51,7 +53,7 @@ def handle : List String → Except String String
       "F1", hexOfBytes f1.1, hexOfBytes f1.2.1, joinHex f1.2.2.1, optNat f1.2.2.2,
       "SP", hexOfBytes sroot, joinHex slayer, joinHex spieces, optNat spad])
   | t =>
-    match ([handleG5, handleG3] : List (List String → Option (Except String String))).findSome? (· t) with
+    match ([handleG5, handleG3, handleG6, handleG4] : List (List String → Option (Except String String))).findSome? (· t) with
     | some r => r
     | none => .error s!"bad-op:{" ".intercalate t}"
 
